@@ -1235,3 +1235,8 @@ for _p in ("C14", "C03"):
 add("C14", "requirements-new-lines-after-an-unterminated-last-line", RQW,
     [("        if not original_lines[-1].endswith(\"\\n\"):\n            original_lines[-1] += eol\n", "")],
     "fire", "R-INSERT-AFTER-TERMINATED", "insert-after:original_lines")
+
+RUI = "core_codemods/remove_unused_imports.py"
+add("C11", "unused-imports-changes-recorded-in-set-order", RUI,
+    [("        for import_alias, importt in unused_imports:", "        for import_alias, importt in gather_unused_visitor.unused_imports:")],
+    "fire", "R-NO-UNORDERED-ITER", "for:gather_unused_visitor.unused_imports")
